@@ -191,3 +191,19 @@ Proof. reflexivity. Qed.
 
 Lemma wf_size_zero b : wf b -> bsize b = 0 -> abs b = [].
 Proof. intros (_ & _ & Hs) H0. destruct (abs b); auto. simpl in Hs. lia. Qed.
+
+(* ---------- all operation sequences ---------- *)
+Lemma q_refines thr : forall ops b,
+  wf b -> exists b', q_impl thr ops b = Some b' /\ wf b' /\ abs b' = q_ref ops (abs b).
+Proof.
+  induction ops as [|[d|n] ops IH]; intros b H; simpl.
+  - exists b; auto.
+  - destruct (IH (append thr d b) (append_wf thr d b H)) as (b' & A & B & C).
+    exists b'. rewrite A, C, (append_abs thr d b H). auto.
+  - pose proof H as (_ & _ & Hs). rewrite <- Hs.
+    destruct ((0 <? n) && (n <=? bsize b)) eqn:E.
+    + apply andb_true_iff in E as [E1 E2]. apply Nat.ltb_lt in E1. apply Nat.leb_le in E2.
+      destruct (advance_spec n b H E1 E2) as (b1 & Ha & Hw & Hab & _). rewrite Ha.
+      destruct (IH b1 Hw) as (b' & A & B & C). exists b'. rewrite A, C, Hab. auto.
+    + rewrite (advance_pre n b E). apply IH. exact H.
+Qed.
